@@ -134,6 +134,17 @@ Proof.
   - inversion H; subst. exact P1.
 Qed.
 
+(* data[2:-4] of header(2) ++ raw ++ trailer(4) is raw *)
+Lemma strip_zlib_spec (hdr raw tl : bytes) :
+  length hdr = 2%nat -> length tl = 4%nat -> strip_zlib (hdr ++ raw ++ tl) = raw.
+Proof.
+  intros H T. unfold strip_zlib.
+  destruct hdr as [|a [|b [|c r]]]; try discriminate. simpl skipn.
+  rewrite !app_length. simpl length. rewrite T.
+  replace (2 + (length raw + 4) - 6)%nat with (length raw) by lia.
+  rewrite firstn_app, Nat.sub_diag. rewrite firstn_all. simpl. apply app_nil_r.
+Qed.
+
 (* ================= inverse-pair contracts ================= *)
 Definition pubk (k : key) : key :=
   {| k_kty := k_kty k; k_crv := k_crv k; k_priv := false; k_id := k_id k |}.
@@ -413,7 +424,8 @@ Qed.
 Lemma zip_rt prot m z : zip_plain O g prot m = Ok z -> unzip O g prot z = Ok m.
 Proof.
   unfold zip_plain, unzip. destruct (dmem prot (s_ "zip")); [| intro H; inversion H; reflexivity].
-  intro H. inv_bind H. rewrite E. simpl. apply (ct_zip O C). exact H.
+  intro H. inv_bind H. rewrite E. simpl. unfold zip_compress in H. inv_bind H. inversion H; subst.
+  apply (ct_zip O C). assumption.
 Qed.
 
 (* message layer: given that the recipients yield the CEK used by the encryption *)
@@ -1514,4 +1526,5 @@ Definition toy_oracles : oracles := {|
 Lemma toy_contracts : contracts toy_oracles.
 Proof.
   constructor; simpl; intros; try (inversion H; subst; reflexivity).
+  inversion H; subst. f_equal. apply (strip_zlib_spec [120; 156] m [0; 0; 0; 0]); reflexivity.
 Qed.
